@@ -42,6 +42,8 @@ def formulas(tier):
         "y ~ x + (1|g)", "y ~ x + (x|g)", "y ~ (center(x)|g)", "y ~ (f|g)", "y ~ (0 + f|g)", "y ~ (x|g:f)", "y ~ (scale(x)|g) + (1|f)",
         "y ~ (1|C(k))", "y ~ (x|C(k))",
         "y ~ binary(f, 'a') + x", "y ~ offset(x) + z",
+        # operators that build several terms from one written factor
+        "y ~ f/g", "y ~ f/x", "y ~ g/f/x", "y ~ f:(g + x)", "y ~ (f + g)**2", "y ~ 0 + (f + g)**2", "y ~ f*g*x", "y ~ (f + g):x", "y ~ (f + g)*x", "y ~ 0 + f*g", "y ~ center(x)/f", "y ~ (x + f|g) + f/x",
     ]
     if tier != "quick":
         f += ["y ~ x*f*g", "y ~ center(x)*f", "y ~ scale(x) + scale(z) + scale(x):scale(z)", "y ~ poly(x, 4, raw=True) + poly(z, 2, raw=True)",
